@@ -146,7 +146,7 @@ def numeric_X(n):
     return np.array([((7 * k + 3) % 11 - 5) / 4.0 for k in range(n)], dtype=float)
 
 
-def checked_call(ses, label, m, n, X, fn, want, kind, sample, key, what, data):
+def checked_call(ses, label, m, n, X, fn, want, kind, sample, key, what, data, must_not_raise=False):
     """The query `fn` evaluated TWICE on the same objects with the symbolic solution injected: both results must equal
     `want` for all values of the solution vector (a query must not change what the next one returns).  If the real code
     cannot run on symbolic entries (in-place float arithmetic raises), the same two evaluations are made with a concrete
@@ -162,9 +162,15 @@ def checked_call(ses, label, m, n, X, fn, want, kind, sample, key, what, data):
             inject(m, n, Xn)
             g1 = np.array(fn(), dtype=float)
             g2 = np.array(fn(), dtype=float)
-        except Exception:
-            ses.stats.kinds['raises'] = ses.stats.kinds.get('raises', 0) + 1
+        except Exception as e2:
             inject(m, n, X)
+            if must_not_raise:
+                # NumPy accepts the same index / query on an array: a read-back of a solved model must not raise
+                ses.stats.obligations += 1
+                report(ses, key, '%s raises %s: %s (with a concrete solution vector as well)' % (what, type(e2).__name__, str(e2)[:80]),
+                       dict(data, numeric=True))
+                return
+            ses.stats.kinds['raises'] = ses.stats.kinds.get('raises', 0) + 1
             return
         finally:
             pass
@@ -222,7 +228,8 @@ def run_var(case, ses):
         for tag, fn in (('get', lambda: sub.get()), ('call', lambda: sub())):
             label = 'var%s[%s].%s' % (shape, ix, tag)
             checked_call(ses, label, m, nX, X, fn, wsub, 'slice-readback', dict(shape=list(shape), index=ix, via=tag),
-                         'slice.%s' % tag, 'x%s[%s].%s()' % (shape, ix, tag), dict(k='var', shape=list(shape), idx=ix, via=tag))
+                         'slice.%s' % tag, 'x%s[%s].%s()' % (shape, ix, tag), dict(k='var', shape=list(shape), idx=ix, via=tag),
+                         must_not_raise=True)
 
 
 # ------------------------------------------------------------------ (b) expression calls
